@@ -673,16 +673,26 @@ func (c *FCtx) loadField(state *State, ref *Term, owner types.Type, f *types.Var
 		return c.loadCell(state, er, f.Type())
 	}
 	base := "F$" + structKey(owner) + "." + f.Name()
+	ep := isElemPtr(ref) && ref.Name == "eptr$"+structKey(owner)
+	if ep {
+		base = c.memKey(owner) + "." + f.Name()
+	}
 	var facts []*Term
 	var slices []*SliceV
 	allPre := true
 	var refs []*Term
 	v := c.build(f.Type(), base, func(path string, lt types.Type, s Sort) *Term {
-		arr := c.heapGet(state, path, SArr(SInt, s))
+		var arr, x *Term
+		if ep {
+			arr = c.heapGet(state, path, SArr(SInt, SArr(c.idxSort(), s)))
+			x = Select(Select(arr, ref.Args[0]), ref.Args[1])
+		} else {
+			arr = c.heapGet(state, path, SArr(SInt, s))
+			x = Select(arr, ref)
+		}
 		if !(arr.Op == "var" && strings.HasSuffix(arr.Name, "@pre")) {
 			allPre = false
 		}
-		x := Select(arr, ref)
 		if lt != nil {
 			if fct := c.rangeFact(lt, x); !fct.IsTrue() {
 				facts = append(facts, fct)
@@ -741,6 +751,16 @@ func (c *FCtx) storeField(state *State, ref *Term, owner types.Type, f *types.Va
 		}
 		dst := c.loadField(state, ref, owner, f).(*SliceV)
 		c.copyInto(state, dst, src, dst.Len)
+		return
+	}
+	if isElemPtr(ref) && ref.Name == "eptr$"+structKey(owner) {
+		// a write through &s[i] is a write of the element
+		base = c.memKey(owner) + "." + f.Name()
+		c.walkLeaves(f.Type(), v, base, func(path string, lt types.Type, leaf *Term) {
+			mem := c.heapGet(state, path, SArr(SInt, SArr(c.idxSort(), leaf.Sort)))
+			inner := Select(mem, ref.Args[0])
+			c.heapSet(state, path, Store(mem, ref.Args[0], Store(inner, ref.Args[1], leaf)))
+		})
 		return
 	}
 	c.walkLeaves(f.Type(), v, base, func(path string, lt types.Type, leaf *Term) {
